@@ -128,7 +128,7 @@ func doProp(prop, tier, repo, verif string) int {
 	}
 	cfgs := []core.Config{{Repo: repo, VTA: true}}
 	if tier == "thorough" {
-		cfgs = []core.Config{{Repo: repo, VTA: true}, {Repo: repo, GOARCH: "386", VTA: true}, {Repo: repo, Tags: "verif", VTA: true}, {Repo: repo}}
+		cfgs = []core.Config{{Repo: repo, VTA: true}, {Repo: repo, GOARCH: "386", VTA: true}, {Repo: repo, Tags: "verif", VTA: true}}
 	}
 	type keyed struct {
 		o   core.Obligation
